@@ -2,6 +2,7 @@ import BitbybitModel.Macro.Bitfield
 import BitbybitModel.Macro.Bitenum
 import BitbybitModel.Spec.Register
 import Std.Data.HashMap
+import BitbybitModel.Macro.Args
 /-!
 # Line-protocol driver: runs the model (`M`) and the reference semantics (`S`) on the operations the
 runner executed on the real code (`R`), and reports every disagreement.
@@ -77,10 +78,94 @@ def splitOnStr (s sep : String) : List String := s.splitOn sep
 def parseTy (s : String) : TySyn :=
   if s.startsWith "Option<" ∧ s.endsWith ">" then
     let inner := ((s.drop 7).dropEnd 1).toString
-    { segs := ["Option"], lastArgs := some ((inner.splitOn ",").map (fun a => a.splitOn "::")) }
+    { segs := ["Option"], lastArgs := some ((inner.splitOn ",").map (fun a =>
+        -- lifetimes and const expressions are not types
+        if a.startsWith "'" ∨ a.toList.head?.any Char.isDigit then [] else a.splitOn "::")) }
   else if s = "Option" then { segs := ["Option"], lastArgs := none }
-  else if s.startsWith "(" then { isPath := false, segs := [] }
+  else if s.startsWith "(" ∨ s.startsWith "&" ∨ s.startsWith "*" ∨ s.startsWith "[" ∨ s.startsWith "fn(" then { isPath := false, segs := [] }
   else { segs := s.splitOn "::" }
+
+
+/-! ## tokenizer for the argument list of `#[bitfield(…)]` -/
+
+def digitVal (c : Char) : Option Nat :=
+  if c.isDigit then some (c.toNat - '0'.toNat)
+  else if 'a' ≤ c ∧ c ≤ 'f' then some (c.toNat - 'a'.toNat + 10)
+  else if 'A' ≤ c ∧ c ≤ 'F' then some (c.toNat - 'A'.toNat + 10)
+  else none
+
+def intSuffixes : List String :=
+  ["u8", "u16", "u32", "u64", "u128", "usize", "i8", "i16", "i32", "i64", "i128", "isize"]
+
+/-- value of an integer literal as rustc reads it: radix prefix, `_` separators, optional type suffix -/
+def parseIntLiteral (w : String) : Option Nat :=
+  let w := (intSuffixes.find? (fun sfx => w.endsWith sfx)).elim w (fun sfx => (w.dropEnd sfx.length).toString)
+  let (radix, body) : Nat × List Char :=
+    match w.toList with
+    | '0' :: 'x' :: r => (16, r)
+    | '0' :: 'o' :: r => (8, r)
+    | '0' :: 'b' :: r => (2, r)
+    | r => (10, r)
+  let ds := body.filter (· ≠ '_')
+  if ds.isEmpty then none else
+  ds.foldl (fun acc c => match acc, digitVal c with
+    | some a, some d => if d < radix then some (a * radix + d) else none
+    | _, _ => none) (some 0)
+
+/-- one argument: leading path, then the tokens the closure can look at -/
+partial def lexArgRest : List Char → List ATok → List ATok
+  | [], acc => acc.reverse
+  | c :: cs, acc =>
+    if c = ' ' ∨ c = '\t' then lexArgRest cs acc
+    else if c = ':' then lexArgRest cs (.colon :: acc)
+    else if c = '=' then lexArgRest cs (.eq :: acc)
+    else if c = '"' then
+      let rest := (cs.dropWhile (· ≠ '"')).drop 1
+      lexArgRest rest (.otherLit :: acc)
+    else if c = '-' ∧ (cs.dropWhile (· = ' ')).head?.any Char.isDigit then
+      let cs' := cs.dropWhile (· = ' ')
+      let word := cs'.takeWhile isWordChar
+      let rest := cs'.dropWhile isWordChar
+      match parseIntLiteral (String.ofList word) with
+      | some v => lexArgRest rest (.int v true :: acc)
+      | none => lexArgRest rest (.other :: acc)
+    else if c.isDigit then
+      let word := (c :: cs).takeWhile isWordChar
+      let rest := (c :: cs).dropWhile isWordChar
+      -- a float: digits '.' digits
+      match rest with
+      | '.' :: d :: rest' =>
+        if d.isDigit then lexArgRest ((d :: rest').dropWhile isWordChar) (.otherLit :: acc)
+        else lexArgRest rest ((match parseIntLiteral (String.ofList word) with | some v => ATok.int v false | none => .other) :: acc)
+      | _ => lexArgRest rest ((match parseIntLiteral (String.ofList word) with | some v => ATok.int v false | none => .other) :: acc)
+    else if isWordChar c then
+      let word := String.ofList ((c :: cs).takeWhile isWordChar)
+      let rest := (c :: cs).dropWhile isWordChar
+      let t : ATok := if word = "true" ∨ word = "false" then .otherLit else .ident word
+      lexArgRest rest (t :: acc)
+    else lexArgRest cs (.other :: acc)
+
+partial def lexArgPath : List Char → List String → List String × List Char
+  | cs, acc =>
+    let cs := cs.dropWhile (· = ' ')
+    match cs with
+    | c :: _ =>
+      if isWordChar c ∧ !c.isDigit then
+        let word := String.ofList (cs.takeWhile isWordChar)
+        let rest := (cs.dropWhile isWordChar).dropWhile (· = ' ')
+        match rest with
+        | ':' :: ':' :: rest' => lexArgPath rest' (word :: acc)
+        | _ => ((word :: acc).reverse, rest)
+      else (acc.reverse, cs)
+    | [] => (acc.reverse, [])
+
+/-- `u32, default = 5, debug` ↦ arguments (split at top-level commas; a trailing comma is allowed) -/
+def lexDeclArgs (s : String) : List ArgSyn :=
+  let pieces := (s.splitOn ",").map (fun p => p.trimAscii.toString)
+  let pieces := if pieces.getLast? = some "" then pieces.dropLast else pieces
+  pieces.map fun p =>
+    let (path, rest) := lexArgPath p.toList []
+    { path := path, rest := lexArgRest rest [] }
 
 /-! ## the type table -/
 
@@ -99,6 +184,8 @@ structure State where
   -- pending declaration being read
   curEnum : Option EnumSyn := none
   curDecl : Option DeclSyn := none
+  /-- the argument list of the pending declaration was rejected -/
+  curArgsErr : Option Reject := none
   nOps : Nat := 0
   nMisM : Nat := 0
   nMisS : Nat := 0
